@@ -61,7 +61,11 @@ def in_domain(c):
 
 def run(ctx):
     ctx.translate(['Defaults.v'])
-    models_ok = ctx.build_models(['Base.Show', 'Model.Retry', 'Spec.RetrySpec', 'Model.RetryTask'])
+    models_ok = ctx.build_models(['Base.Show', 'Model.Retry', 'Spec.RetrySpec'])
+    # the task model is defined from the generated table of retry-strategy calls per arm: when the translator does not
+    # recognise the source (or the model no longer compiles) the tie is reported as broken and the live task scenarios
+    # are still judged against the Spec alone
+    TASK_MODEL_OK[0] = bool(ctx.translate(['RetryArms.v'])) and ctx.build_models(['Gen.RetryArms', 'Model.RetryTask'])
     # the composed client front-end rests on p4's task model and the TLS tables: regenerate, build; if that fails the
     # tie is reported as broken and the scenarios are still judged against the Spec and the RetryTask model
     FRONT_OK[0] = bool(ctx.translate(['SessionErrors.v', 'TlsVersions.v', 'TlsModes.v'])) and ctx.build_models(['Model.ClientFront'])
@@ -121,13 +125,19 @@ def run(ctx):
 
 # ---------------------------------------------------------------------------------------------
 # task level
-TASK_REQ = ['Base.Show', 'Model.Retry', 'Spec.RetrySpec', 'Model.RetryTask']
+TASK_REQ = ['Base.Show', 'Model.Retry', 'Spec.RetrySpec', 'Gen.RetryArms', 'Model.RetryTask']
 TASK_T = 'variant * N * N * list tevent * list op'
 TASK_FN = ('fun c : variant * N * N * list tevent * list op => let \'(v, mn, mx, evs, ops) := c in '
            '(match trun v (tinit mn mx) evs with None => "PANIC" | Some (_, o) => '
            'show_list (fun x => x) "," (flat_map (fun x => match x with OAnnounce AfterFailedConnect d => ["F" ++ show_N d] | OAnnounce AfterDisconnect d => ["D" ++ show_N d] | _ => [] end) o) end) '
            '++ "|" ++ (match trun v (tinit mn mx) evs with None => "PANIC" | Some (_, o) => show_list show_N "," (armed o) end) '
            '++ "|" ++ show_list show_N "," (somes (spec mn mx 0 ops))')
+# Spec-only evaluation (no Gen, no task model)
+TASK_REQ_SPEC = ['Base.Show', 'Model.Retry', 'Spec.RetrySpec']
+TASK_T_SPEC = 'N * N * list op'
+TASK_FN_SPEC = ('fun c : N * N * list op => let \'(mn, mx, ops) := c in '
+                '"NOMODEL|NOMODEL|" ++ show_list show_N "," (somes (spec mn mx 0 ops))')
+TASK_MODEL_OK = [True]
 MS = 10**6
 
 
@@ -136,7 +146,7 @@ FRONT_REQ = ['Base.Show', 'Spec.Lifecycle', 'Gen.SessionErrors', 'Model.ClientTa
 FRONT_T = 'ctransport * N * N * list cevent'
 FRONT_FN = ('fun c : ctransport * N * N * list cevent => let \'(tr, mn, mx, evs) := c in '
             'show_list (fun x => x) "," (flat_map (fun l => match l with LWaitFailed d => ["F" ++ show_N d] | LWaitDisc d => ["D" ++ show_N d] | _ => [] end) '
-            '(listens_of (snd (crun {| cfg_cap := 8%nat; cfg_res := 1 |} tr (cinit 1 None mn mx) evs))))')
+            '(listens_of (snd (crun {| cfg_cap := 8%nat; cfg_res := 1 |} tr (cinit 1 (match tr with CPlain => Some 2 | _ => None end) mn mx) evs))))')
 SRV_GOOD = ('(SrvTls {| offers12 := true; offers13 := true; presented := {| chains_to_authority := true; identical_to_configured := false; '
             'within_validity := true; name_matches := true; cert_exts := None |} |})')
 SRV_BAD = SRV_GOOD.replace('chains_to_authority := true', 'chains_to_authority := false')
@@ -159,6 +169,14 @@ def front_to_coq(c):
             evs += [f'CTcp true {SRV_GOOD}', 'CHandshake', 'CE EvEof'] + wait_end
         elif ch in 'cs':
             evs += ['CTcp true SrvCloses', 'CE EvEof'] + wait_end
+        elif ch == 'g':
+            evs += ['CTcp true SrvCloses', 'CE EvGarbage'] + wait_end
+        elif ch == 'm':
+            # two requests, each written and then left unanswered past its 30 ms response timeout
+            evs += ['CTcp true SrvCloses']
+            for k in (1, 2):
+                evs += [f'CE (EvSubmit (CReq {{| rq_id := {k}%nat; rq_kind := KRead; rq_timeout := {30 * MS} |}}) SFuture)', 'CE EvRecv', f'CE (EvTick {31 * MS})', 'CE EvTimer']
+            evs += wait_end
         elif ch == 'd':
             evs += ['CTcp false SrvCloses'] + toggle
         elif ch == 'e':
@@ -180,6 +198,9 @@ def task_cases(ctx, n):
              ('tcp', 20, 70, 'rrrrrr'), (f'tls:{certs}', 15, 100, 'cccc'), ('tcp', 5, 40, 'rrrrsrrrr'),
              ('tcp', 20, 70, 'drr'), ('tcp', 20, 70, 'rdcdr'), ('tcp', 15, 100, 'ddd'),
              ('tcp', 20, 70, 'rrer'), ('tcp', 10, 100, 'rrrerr'), ('tcp', 20, 70, 'er'), ('tcp', 30, 70, 'qr'), ('tcp', 20, 70, 'rqqr'), ('tcp', 20, 70, 'qqe'), ('tcp', 15, 100, 'rqer'),
+             ('tcp', 20, 400, 'crrrr'), ('tcp', 20, 400, 'grrrr'), ('tcp', 20, 400, 'mrrrr'), ('tcp', 20, 400, 'errrr'), ('tcp', 20, 400, 'srrrr'),
+             ('tcp', 15, 400, 'rrcrrr'), ('tcp', 15, 400, 'rrgrrr'), ('tcp', 15, 400, 'rrmrrr'), ('tcp', 15, 400, 'rrerrr'), ('tcp', 10, 35, 'mgcmrrr'),
+             (f'tls:{certs}', 20, 400, 'hrrrr'), ('rtu', 20, 400, 'orrrr'), ('rtu', 15, 400, 'rrorrr'), ('rtuserver', 20, 400, 'orrrr'),
              ('rtu', 20, 70, 'rrror'), ('rtu', 20, 70, 'oro'), ('rtu', 10, 40, 'rrrrr'), ('rtu', 20, 70, 'o'),
              ('rtuserver', 20, 70, 'rrror'), ('rtuserver', 20, 70, 'oro'), ('rtuserver', 10, 40, 'rrrrr'), ('rtuserver', 20, 70, 'o'),
              ('rtuserver', 30, 70, 'lr'), ('rtuserver', 20, 70, 'rllr'), ('rtuserver', 25, 60, 'lol')]
@@ -194,12 +215,12 @@ def task_cases(ctx, n):
             else:
                 cases.append(('rtuserver', mn, mx, ''.join(r.choices('rol', weights=(4, 2, 2), k=ln))))
             continue
-        script = ''.join(r.choices('rctwh' if tls else 'rcsdeq', weights=(5, 2, 1, 2, 2) if tls else (5, 1, 2, 1, 1, 1), k=ln))
+        script = ''.join(r.choices('rctwh' if tls else 'rcsdeqgm', weights=(5, 2, 1, 2, 2) if tls else (7, 1, 2, 1, 1, 1, 1, 1), k=ln))
         cases.append((f'tls:{certs}' if tls else 'tcp', mn, mx, script))
     return cases
 
 
-def task_to_coq(c):
+def task_to_coq(c, spec_only=False):
     variant, mn, mx, script = c
     tls = variant.startswith('tls')
     evs, ops = [], []
@@ -208,7 +229,7 @@ def task_to_coq(c):
             evs += ['AttemptFails', 'Elapsed']      # the handshake fails (stalled then closed / certificate refused): a failed connect
             ops += ['Fail']
         elif tls and ch == 'h':
-            evs += ['AttemptOk', 'Lost', 'Elapsed']  # handshake ok: Connected; then the server goes away
+            evs += ['AttemptOk', 'Lost LIo', 'Elapsed']  # handshake ok: Connected; then the server goes away
             ops += ['Reset', 'Disc']
         elif ch == 'l':
             evs += ['AttemptFails', 'Elapsed']      # device missing; a decode-level command during the wait changes nothing
@@ -225,9 +246,17 @@ def task_to_coq(c):
         elif ch == 'r' or (tls and ch == 'c'):
             evs += ['AttemptFails', 'Elapsed']      # refused, or the TLS handshake fails: a failed connect
             ops += ['Fail']
-        else:
-            evs += ['AttemptOk', 'Lost', 'Elapsed']  # connected, then lost
+        elif ch == 'g':
+            evs += ['AttemptOk', 'Lost LBadFrame', 'Elapsed']     # connected, then the peer sends a frame that cannot be parsed
             ops += ['Reset', 'Disc']
+        elif ch == 'm':
+            evs += ['AttemptOk', 'Lost LMaxTimeouts', 'Elapsed']  # connected, then max_response_timeouts consecutive timeouts
+            ops += ['Reset', 'Disc']
+        else:
+            evs += ['AttemptOk', 'Lost LIo', 'Elapsed']  # connected, then lost (the peer closed: an I/O error)
+            ops += ['Reset', 'Disc']
+    if spec_only:
+        return f'({mn * MS}, {mx * MS}, [{";".join(ops)}])'
     model_variant = {'rtu': 'SerialClient', 'rtuserver': 'RtuServer'}.get(variant, 'TcpClient')
     return f'({model_variant}, {mn * MS}, {mx * MS}, [{";".join(evs)}], [{";".join(ops)}])'
 
@@ -251,8 +280,12 @@ def task_eval(ctx, cases):
             res = ctx.harness('retrytask', [f'{v} {mn} {mx} {sc}' for v, mn, mx, sc in (cases[k] for k in ix)], shards=shards, timeout=600)
             for k, r in zip(ix, res):
                 impl[k] = r
-    both = ctx.coq_eval(TASK_REQ, TASK_FN, [task_to_coq(actual_case(c, i)) for c, i in zip(cases, impl)], case_type=TASK_T,
-                        preamble='Local Open Scope string_scope.', per_shard=40)
+    if TASK_MODEL_OK[0]:
+        both = ctx.coq_eval(TASK_REQ, TASK_FN, [task_to_coq(actual_case(c, i)) for c, i in zip(cases, impl)], case_type=TASK_T,
+                            preamble='Local Open Scope string_scope.', per_shard=40)
+    else:
+        both = ctx.coq_eval(TASK_REQ_SPEC, TASK_FN_SPEC, [task_to_coq(actual_case(c, i), spec_only=True) for c, i in zip(cases, impl)], case_type=TASK_T_SPEC,
+                            preamble='Definition somes (l : list (option N)) : list N := flat_map (fun x => match x with Some d => [d] | None => [] end) l.\nLocal Open Scope string_scope.', per_shard=40)
     # tcp / tls scenarios additionally through the composed client front-end model
     ix = [k for k, c in enumerate(cases) if c[0] == 'tcp' or c[0].startswith('tls')]
     if ix and FRONT_OK[0]:
@@ -277,7 +310,9 @@ def task_judge(i, b):
     kinds = ','.join(f[:-1] for f in fields)
     if values != spec:
         return ('task.announced-delays-differ-from-spec', f'announced {kinds} but the Spec gives {spec}')
-    if values != armed or (model and kinds != model):
+    if model == 'NOMODEL':
+        pass
+    elif values != armed or (model and kinds != model):
         return ('task.model-differs-from-impl', f'announced {kinds} but the model gives {model or armed}')
     if front is not None and kinds != front:
         return ('task.client-front-model-differs-from-impl', f'announced {kinds} but the composed client front-end model gives {front}')
@@ -300,17 +335,22 @@ def run_task_level(ctx):
     elif ctx.replay:
         return
     else:
-        cases = task_cases(ctx, 48 if ctx.quick() else 400)
+        cases = task_cases(ctx, 64 if ctx.quick() else 400)
         n_exhaustive = 0
         if not ctx.quick():
             # thorough: additionally ALL connect-outcome sequences of length <= 4 for every task variant (20/70 ms)
             import itertools
             certs = os.path.join(vlib.REPO, 'certs', 'ca_chain') + ':' + os.path.join(vlib.ROOT, 'certs', 'ca2')
-            for variant, letters in (('tcp', 'rcseq'), (f'tls:{certs}', 'rctwh'), ('rtu', 'ro'), ('rtuserver', 'rol')):
-                for ln in (1, 2, 3, 4):
+            # (tcp: the five older letters to length 4, all seven to length 3, and the four ways a connection ends + r to length 4)
+            seen = set()
+            for variant, letters, lens in (('tcp', 'rcseq', (1, 2, 3, 4)), ('tcp', 'rcseqgm', (1, 2, 3)), ('tcp', 'rgme', (4,)),
+                                           (f'tls:{certs}', 'rctwh', (1, 2, 3, 4)), ('rtu', 'ro', (1, 2, 3, 4)), ('rtuserver', 'rol', (1, 2, 3, 4))):
+                for ln in lens:
                     for sc in itertools.product(letters, repeat=ln):
-                        cases.append((variant, 20, 70, ''.join(sc)))
-                        n_exhaustive += 1
+                        if (variant, sc) not in seen:
+                            seen.add((variant, sc))
+                            cases.append((variant, 20, 70, ''.join(sc)))
+                            n_exhaustive += 1
         ctx.coverage['task_level_exhaustive_sequences_up_to_length_4'] = n_exhaustive
     impl, both = task_eval(ctx, cases)
     bad = 0
@@ -331,11 +371,11 @@ def run_task_level(ctx):
         js = task_judge(im[0], bo[0])
         if not js or js[0] != key:
             small, im, bo, js = c, [i], [b], j
-        ctx.violation(key, f'{"RTU server" if small[0] == "rtuserver" else small[0].split(":")[0] + " client"} task, retry {small[1]}..{small[2]} ms, connect outcomes "{small[3]}" (r=refused/no device c=accepted+closed s=served o=port opened then lost d=refused+disable/enable during the wait e=connected then disable/enable q=refused+request during the wait l=no device+level change during the wait; tls: t=accepted, stalls 150 ms, closes w=TLS server of another authority h=TLS server accepted, then stopped): {js[1]}',
+        ctx.violation(key, f'{"RTU server" if small[0] == "rtuserver" else small[0].split(":")[0] + " client"} task, retry {small[1]}..{small[2]} ms, connect outcomes "{small[3]}" (r=refused/no device c=accepted+closed s=served o=port opened then lost d=refused+disable/enable during the wait e=connected then disable/enable g=connected then a bad frame from the peer m=connected then 2 response timeouts (max_response_timeouts=2) q=refused+request during the wait l=no device+level change during the wait; tls: t=accepted, stalls 150 ms, closes w=TLS server of another authority h=TLS server accepted, then stopped): {js[1]}',
                       {'task_cases': [list(small)], 'impl': im[0], 'model|spec': bo[0], 'original_case': list(c)},
                       no_failing_input=(key == 'task.model-differs-from-impl'))
     ctx.oblige('correspondence:task-level-delays', bad == 0, f'{bad} of {len(cases)} scenarios differ')
-    tcls = {'tls_handshake_stalled': 0, 'tls_server_refused': 0, 'tls_handshake_ok': 0, 'with_disable_while_connected': 0, 'with_request_during_wait': 0, 'with_disable_during_wait': 0, 'wait_abandoned_by_disable': 0, 'tcp': 0, 'tls': 0, 'rtu': 0, 'rtuserver': 0, 'rtuserver_followed_script': 0, 'with_port_opened': 0, 'with_served': 0, 'with_accept_close': 0, 'three_refused_in_a_row': 0, 'capped': 0, 'announcements': 0}
+    tcls = {'tls_handshake_stalled': 0, 'tls_server_refused': 0, 'tls_handshake_ok': 0, 'with_disable_while_connected': 0, 'with_request_during_wait': 0, 'with_disable_during_wait': 0, 'wait_abandoned_by_disable': 0, 'tcp': 0, 'tls': 0, 'rtu': 0, 'rtuserver': 0, 'rtuserver_followed_script': 0, 'with_port_opened': 0, 'with_served': 0, 'with_accept_close': 0, 'ended_by_bad_frame': 0, 'ended_by_max_timeouts': 0, 'each_session_end_then_three_failed_connects': 0, 'three_refused_in_a_row': 0, 'capped': 0, 'announcements': 0}
     for c, i in zip(cases, impl):
         tcls['tls' if c[0].startswith('tls') else c[0]] += 1
         tcls['with_port_opened'] += 'o' in c[3]
@@ -350,15 +390,18 @@ def run_task_level(ctx):
         tcls['rtuserver_followed_script'] += c[0] == 'rtuserver' and actual_case(c, i)[3] == c[3]
         tcls['with_served'] += 's' in c[3]
         tcls['with_accept_close'] += 'c' in c[3]
+        tcls['ended_by_bad_frame'] += 'g' in c[3]
+        tcls['ended_by_max_timeouts'] += 'm' in c[3]
+        tcls['each_session_end_then_three_failed_connects'] += any(k + 'rrr' in c[3] for k in 'cgmesho')
         tcls['three_refused_in_a_row'] += 'rrr' in c[3]
         tcls['capped'] += f'F{c[2] * MS}' in i
         tcls['announcements'] += len([f for f in i.split(',') if f])
     if not ctx.replay:
-        ctx.oblige('task-generator-reaches-expected-classes', all(tcls[k] >= 3 for k in ('tls_handshake_stalled', 'tls_server_refused', 'tls_handshake_ok', 'with_disable_while_connected', 'with_request_during_wait', 'tcp', 'tls', 'rtu', 'rtuserver', 'rtuserver_followed_script', 'with_port_opened', 'with_served', 'with_accept_close', 'three_refused_in_a_row', 'capped')), str(tcls))
+        ctx.oblige('task-generator-reaches-expected-classes', all(tcls[k] >= 3 for k in ('tls_handshake_stalled', 'tls_server_refused', 'tls_handshake_ok', 'with_disable_while_connected', 'with_request_during_wait', 'tcp', 'tls', 'rtu', 'rtuserver', 'rtuserver_followed_script', 'with_port_opened', 'with_served', 'with_accept_close', 'ended_by_bad_frame', 'ended_by_max_timeouts', 'three_refused_in_a_row', 'capped')) and tcls['each_session_end_then_three_failed_connects'] >= 10, str(tcls))
     ctx.coverage['task_level'] = {
         'scenarios': len(cases),
         'distinct_nontrivial': len(set(c for c in cases if len(c[3]) >= 2)),
-        'rule': 'scenario = (tcp|tls|rtu client task or rtuserver = RTU server task (delays read from its log, judged on the outcome sequence that actually occurred), min ms, max ms, one connect outcome per attempt: r refused / device missing, c accepted then closed (tls: failed handshake), s served one request then closed, o pty opened then its master closed); seeded PRNG after a fixed list; non-trivial = at least two attempts',
+        'rule': 'scenario = (tcp|tls|rtu client task or rtuserver = RTU server task (delays read from its log, judged on the outcome sequence that actually occurred), min ms, max ms, one connect outcome per attempt: r refused / device missing, c accepted then closed (tls: failed handshake), s served one request then closed, g connected then bad frame, m connected then max_response_timeouts timeouts, o pty opened then its master closed); seeded PRNG after a fixed list; non-trivial = at least two attempts',
         'input_classes': tcls,
         'samples': [list(c[:1]) + list(c[1:]) + [i] for c, i in list(zip(cases, impl))[:4]],
     }
